@@ -94,6 +94,20 @@ PROPS = {
         "real": "cleaner.Worker (Run, RunOnce, SetCommitted), snapshot.ParseName, utils.SleepContextPerturb; fleet-receiveonly: the whole syncer",
         "assumptions": ["a file is 'first seen' when the cleaner issues the List call that first returns it"],
     },
+    "C16": {
+        "level": "exploration",
+        "profiles": [{"name": "receiver-sim", "weight": 3}, {"name": "fleet-runonce", "weight": 1}],
+        "rule": "receiver-sim: each case is one seeded bucket evolution (1-7 instances incl. more instances than tokens, publishing, being "
+                "cleaned, undecodable blobs) against the real receiver (Run loop, downloaders, both token limits 1..3) with the harness as "
+                "merge loop calling Next/Close at drawn speeds, under failing/slow/lagging List and Load calls and vanishing objects; oracles: "
+                "token gauges never above the configured limits at any step, delivery order per instance, nothing undecodable delivered, after the "
+                "faults stop the newest decodable snapshot of every other instance is delivered within a stated bound, no token held after "
+                "everything is closed; fleet-runonce: a real instance with only_once ends by itself exactly after merging the newest snapshot of "
+                "every instance present at start-up; non-trivial = at least two snapshots delivered (or the run-once instance returned); "
+                "distinct = distinct SHA-256 of the event log",
+        "real": "receiver.Receiver (Run, RunOnce, Next, MarkCorrupt), Downloader, climit, snapshot.LoadData; fleet-runonce: the whole syncer",
+        "assumptions": ["the number of held snapshots is read from the repository's own lightningstream_climit_active gauge"],
+    },
 }
 
 ALL_PROFILES = sorted({p["name"] for c in PROPS.values() for p in c["profiles"]})
@@ -126,4 +140,25 @@ MANIFEST_TEXT = {
                     "are injected and must stop the instance with an error instead of being uploaded.",
             "note": SIM_NOTE + " The universe of all byte strings is sampled only through what simulated applications store.",
             "technique": "deterministic simulation + independent header parser as invariant, stored-byte faults"},
+    "C04": {"text": "Delete-heavy fleet histories with restarts that re-merge old snapshots and, in a third of the runs, the tomb sweeper under generated "
+                    "retention/load-cutoff configurations on the fake clock; per-transaction oracle 'a stored deletion is only replaced by a version above it', "
+                    "per-merge oracle 'every deletion in a merged snapshot took effect', per-upload oracle 'all markers travel', no expired marker re-created.",
+            "note": SIM_NOTE, "technique": "deterministic simulation (fleet, fake clock for retention periods) + per-transaction and per-merge invariants"},
+    "C05": {"text": "Fleet runs with cleaners on, crash/restart (LMDB kept or emptied) at scheduler-chosen yield points and List/Load/Store/Delete faults before or after "
+                    "their effect; after every bucket mutation the LWW join over the newest decodable snapshots must not lose or move back a key; plus the own-snapshot-first "
+                    "and fatal-store-failure clauses. Crash points are sampled, not enumerated, hence exploration.",
+            "note": SIM_NOTE, "technique": "deterministic simulation with crash/restart and storage fault injection + monotone-join invariant over the bucket"},
+    "C10": {"text": "Fleet histories are driven to convergence, then a silent phase (zero uploads, LastTxnID constant) and a restart of one instance whose start-up snapshot "
+                    "carries nothing new (others neither upload nor commit) are checked.",
+            "note": SIM_NOTE, "technique": "deterministic simulation + quiescence oracle over bucket log and LMDB transaction ids"},
+    "C12": {"text": "The real cleaner.Worker.Run on the fake clock against generated bucket evolutions, notifications and List/Delete faults; every Delete is judged by a "
+                    "reference permission model written from the statement; the same model judges the cleaners of real instances in fleet runs; bounded-time removal of "
+                    "superseded files; receive-only instances stay silent.",
+            "note": SIM_NOTE + " A file counts as first seen when the cleaner issues the List call that first returns it.",
+            "technique": "deterministic simulation (component + fleet) + reference permission model"},
+    "C16": {"text": "The real receiver with its downloaders and token limits against generated bucket evolutions and List/Load faults, the harness as merge loop at drawn speeds: "
+                    "token gauges within limits at every step, nothing undecodable delivered, bounded-time delivery of the newest decodable snapshot once faults stop, no token held after "
+                    "drain; run-once instances end exactly after merging everything present at start-up.",
+            "note": SIM_NOTE + " Held snapshots are counted through the repository's own lightningstream_climit_active gauge.",
+            "technique": "deterministic simulation (component + fleet) + safety invariant on token gauges + bounded liveness"},
 }
